@@ -25,6 +25,7 @@ CLAIM = (
     "read on the unchanged tree (baselines/skips.json): a new skip means elements that were handled are no longer handled."
     " ARITY: the matchers of the schema inference read `node.values[i]` / `node.args[i]` only after establishing the exact number of "
     "operands (an ignored extra operand makes the inferred constraint stronger than the invariant)."
+    " KEYS (shared with C12) and BOUND / DIR (shared with C15): a length keyword fed from the wrong bound or a bound that is one off / folded in the wrong direction rejects valid instances. ANCHOR-ATOMS (shared with C06): only for patterns anchored as a whole does the searching `pattern` keyword equal the full match."
 )
 NOTE = (
     "Oracles: base64 length 4*ceil(n/3) (RFC 4648 with padding, which all SDKs emit); the five-row JSON type table. Not decided: "
